@@ -23,7 +23,7 @@ def make_metrics(rng, kinds=("mean", "ratio", "srm", "custom_aggr", "quantile", 
             p = {"numer": c[0], "denom": c[1], "ncov": c[2] if rng.random() < 0.3 else None}
         elif k == "srm":
             p = {}
-        elif k == "custom_aggr":
+        elif k in ("custom_aggr", "power_aggr"):
             p = {"has_count": rng.random() < 0.7, "mean": rng.sample(COLS, rng.randint(0, 2)),
                  "var": rng.sample(COLS, rng.randint(0, 2)),
                  "cov": [tuple(rng.sample(COLS, 2)) for _ in range(rng.randint(0, 2))]}
@@ -88,9 +88,57 @@ def build(metrics, seed=7):
         def analyze(self, data, control, treatment, variant):
             Plain.calls.append((control, treatment, variant, type(data).__name__))
             return {"plain": 1}
+    class PowerAggr(TM.MetricBase, TM.PowerBaseAggregated):
+        """power analysis from aggregates (PowerBaseAggregated) although the ANALYSIS is not aggregated"""
+        def __init__(self, p):
+            self.p = p
+            self.received = None
+
+        @property
+        def aggr_cols(self):
+            return TM.AggrCols(has_count=self.p["has_count"], mean_cols=tuple(self.p["mean"]),
+                               var_cols=tuple(self.p["var"]), cov_cols=tuple(tuple(x) for x in self.p["cov"]))
+
+        def analyze(self, data, control, treatment, variant):
+            Plain.calls.append((control, treatment, variant, type(data).__name__))
+            return {"plain": 1}
+
+        def solve_power_from_aggregates(self, data, parameter="rel_effect_size"):
+            out, missing = {}, []
+            for what, keys, get in (("count", ["_"] if self.p["has_count"] else [], lambda k: data.count()),
+                                    ("mean", self.p["mean"], data.mean), ("var", self.p["var"], data.var),
+                                    ("cov", [tuple(x) for x in self.p["cov"]], lambda k: data.cov(*k))):
+                for k in keys:
+                    try:
+                        out[f"{what}:{k}"] = float(get(k))
+                    except Exception as e:  # noqa: BLE001
+                        missing.append(f"{what}:{k} ({type(e).__name__})")
+            self.received = (type(data).__name__, missing)
+            return out
+
+    class PowerPlain(TM.MetricBase, TM.PowerBase):
+        """a power analysis that reads the data itself"""
+        calls = []
+
+        def __init__(self, name):
+            self.name = name
+
+        def analyze(self, data, control, treatment, variant):
+            Plain.calls.append((control, treatment, variant, type(data).__name__))
+            return {"plain": 1}
+
+        def solve_power(self, data, parameter="rel_effect_size"):
+            PowerPlain.calls.append((self.name, type(data).__name__, parameter))
+            return {"power_plain": 1}
+    PowerPlain.calls = []
+    Plain.PowerPlain = PowerPlain
     objs = {}
     for name, k, p in metrics:
-        if k == "mean":
+        if k == "power_aggr":
+            objs[name] = PowerAggr(p)
+        elif k == "power_plain":
+            objs[name] = PowerPlain(name)
+        elif k == "mean":
             objs[name] = tt.Mean(p["value"], p["covariate"])
         elif k == "ratio":
             objs[name] = tt.RatioOfMeans(p["numer"], p["denom"], p["ncov"])
@@ -150,13 +198,39 @@ HEADER = ("From Coq Require Import ZArith String List Bool.\nFrom TT Require Imp
           "Definition showp (l : list (Z * Z)) : list (Z * Z) := ((-5)%Z, 0%Z) :: l.\n")
 
 
+def coq_power(objs):
+    """power classes of the metrics, as Experiment.solve_power tests them (isinstance)"""
+    import tea_tasting.metrics as TM
+    out = []
+    for name, m in objs.items():
+        if isinstance(m, TM.PowerBaseAggregated):
+            out.append("PwAggr " + coq_spec(m.aggr_cols))
+        elif isinstance(m, TM.PowerBase):
+            out.append("PwPlain")
+        else:
+            out.append("PwNone")
+    return "[" + "; ".join(out) + "]"
+
+
+def power_term(objs):
+    ps = coq_power(objs)
+    return (f"showt (Some (solve_power_trace {ps})) ++ [((-7)%Z, 0%Z)] ++ "
+            f"map (fun i => (7%Z, Z.of_nat i)) (power_entries 0 {ps})")
+
+
+def parse_power(s):
+    pairs = [(int(a), int(b)) for a, b in re.findall(r"\((-?\d+), (-?\d+)\)", s)]
+    i7 = pairs.index((-7, 0))
+    return decode(pairs[:i7]), [b for a, b in pairs[i7 + 1:]]
+
+
 def model_term(objs, control, all_variants, variants):
     ms = coq_metrics(objs)
     c = "None" if control is None else f"(Some ({control})%Z)"
     vs = "[" + "; ".join(f"({v})%Z" for v in sorted(variants)) + "]"
     av = "true" if all_variants else "false"
     return (f"showt (analyze_trace {ms} \"variant\" {c} {av} {vs}) ++ showp (variant_pairs {c} {vs}) "
-            f"++ [((-6)%Z, 0%Z)] ++ showt (Some (solve_power_trace {ms}))")
+            f"++ [((-6)%Z, 0%Z)] ++ showt (Some (solve_power_trace {coq_power(objs)}))")
 
 
 def parse_model(s):
@@ -208,3 +282,90 @@ def classify(log, n_rows_total, all_columns=None, n_variants=None):
             out.append({"kind": "gran", "rows": rec["rows"], "n_cols": len([c for c in cols if c != "variant"]),
                         "columns": sorted(cols)})
     return out
+
+
+# ------------------------------------------------------------------ power analysis dispatch (C03 / C12)
+POWER_KINDS = ("mean", "ratio", "srm", "custom_aggr", "quantile", "power_aggr", "power_plain")
+
+
+def run_power(case):
+    """Experiment.solve_power on a lazy backend with fetch counters. Returns (objs, observed fetches, names of the plain
+    power calls in order, result keys, failures about what the aggregated power metrics received)."""
+    import random
+    import backends as B
+    import tea_tasting as tt
+    objs, Plain = build(case["metrics"])
+    for m in objs.values():
+        if isinstance(m, (tt.Mean, tt.RatioOfMeans)):
+            m.rel_effect_size = 0.2
+    data = rand_data(random.Random(case["data_seed"]), [0, 1], [5, 9])
+    fails = []
+    try:
+        tab = B.make_table(case["backend"], data)
+        with B.fetch_counters() as log:
+            res = tt.Experiment(objs).solve_power(tab, "power")
+    finally:
+        B.cleanup()
+    observed = classify(log, len(data["variant"]), list(data), 2)
+    for name, m in objs.items():
+        if type(m).__name__ == "PowerAggr":
+            if m.received is None:
+                fails.append(f"{name}: PowerBaseAggregated metric was not solved")
+            elif m.received[0] != "Aggregates" or m.received[1]:
+                fails.append(f"{name}: received {m.received[0]}, declared statistics missing: {m.received[1]}")
+    for name in res:
+        m = objs[name]
+        if isinstance(m, (tt.Mean, tt.RatioOfMeans)):
+            alone = m.solve_power(B.make_table("pandas", data), "power")
+            a = [tuple(round(float(x), 9) for x in r) for r in res[name]]
+            b = [tuple(round(float(x), 9) for x in r) for r in alone]
+            if a != b:
+                fails.append(f"{name}: entry {a} differs from the metric's own solve_power {b}")
+    return objs, observed, [c[0] for c in Plain.PowerPlain.calls], list(res), fails
+
+
+def power_correspondence(ctx, tag, n):
+    """observed solve_power behaviour = model/Experiment.solve_power_trace / power_entries (vm_compute)"""
+    import backends as B
+    cases, terms, runs = [], [], []
+    for i in range(n):
+        case = {"metrics": make_metrics(ctx.rng, kinds=POWER_KINDS), "backend": ctx.rng.choice(B.LAZY_KINDS),
+                "data_seed": ctx.rng.randint(0, 10**9), "power": True}
+        try:
+            objs, observed, plain_calls, keys, fails = run_power(case)
+        except Exception as e:  # noqa: BLE001
+            ctx.oblige(False, "correspondence", "Experiment.solve_power on metrics of mixed power classes",
+                       f"{type(e).__name__}: {e}", case)
+            continue
+        cases.append(case)
+        runs.append((objs, observed, plain_calls, keys, fails))
+        terms.append(power_term(objs))
+        ctx.count("power:backend:" + case["backend"])
+        ctx.case_seen(repr(case), nontrivial=len(case["metrics"]) > 1)
+    res, errs = H.coq_eval_shards(tag, HEADER, terms)
+    for e in errs:
+        ctx.oblige(False, "correspondence", "vm_compute evaluation of power dispatch", e)
+    for case, r, (objs, observed, plain_calls, keys, fails) in zip(cases, res, runs):
+        if r is None:
+            continue
+        mtrace, mentries = parse_power(r)
+        names = list(objs)
+        fails = list(fails)
+        maggr = [f for f in mtrace if f["kind"] == "aggr"]
+        mplain = [names[f["metric"]] for f in mtrace if f["kind"] == "plain"]
+        oaggr = [f for f in observed if f["kind"] == "aggr"]
+        if len(observed) != len(oaggr) or len(oaggr) != len(maggr):
+            fails.append(f"fetches {observed} != model {maggr}")
+        for o, m in zip(oaggr, maggr):
+            for k in ("n_mean", "n_var", "n_cov", "grouped"):
+                if o[k] != m[k]:
+                    fails.append(f"power query {k}: observed {o[k]} model {m[k]}")
+            if o["rows"] != 1 or (m["has_count"] and not o["has_count"]):
+                fails.append(f"power query rows={o['rows']} has_count={o['has_count']}")
+        if plain_calls != mplain:
+            fails.append(f"metrics solving on the raw data {plain_calls} != model {mplain}")
+        if keys != [names[i] for i in mentries]:
+            fails.append(f"result entries {keys} != model {[names[i] for i in mentries]}")
+        ctx.oblige(not fails, "correspondence", "Experiment.solve_power dispatch, query and entries = model/Experiment.v (power classes)",
+                   "; ".join(fails), case)
+        ctx.sample({"power_metrics": [(n, k) for n, k, _ in case["metrics"]], "observed": observed, "entries": keys}, limit=2)
